@@ -42,8 +42,12 @@ def run(ctx):
             if short(p) == 'build' and 'ThreadPoolBuilder' in p:
                 n += 1
                 ctx.touch(f)
-                uses = [short(x['callee'].get('path') or '') for bj, kind, x in q.local_uses(f, t['dest']['l']) if kind == 'arg']
-                ctx.verdict(uses == ['branch'], rule, '%s:build-propagated:%s' % (rule, q.top(f.name)), 'the result of ThreadPoolBuilder::build is propagated with `?` (never unwrapped)', f.where(bi), 'consumed by %s' % uses,
+                lus = q.local_uses(f, t['dest']['l'])
+                uses = [short(x['callee'].get('path') or '') for bj, kind, x in lus if kind == 'arg']
+                PANICKY = {'unwrap', 'expect', 'unwrap_or', 'unwrap_or_else', 'unwrap_or_default', 'unwrap_unchecked', 'ok', 'is_ok', 'is_err', 'drop'}
+                matched = any(kind == 'discr' for bj, kind, x in lus)      # `match pool { Ok(p) => p, Err(e) => return Err(e.into()) }`
+                good = (uses == ['branch'] or (matched and not (set(uses) & PANICKY))) and not (set(uses) & PANICKY)
+                ctx.verdict(good, rule, '%s:build-propagated:%s' % (rule, q.top(f.name)), 'the result of ThreadPoolBuilder::build is propagated (`?` or an explicit match), never unwrapped or discarded', f.where(bi), 'consumed by %s%s' % (uses, ' and matched on' if matched else ''),
                             breaks='a failure to spawn threads panics instead of returning SolveError::ThreadSpawnError')
     if n < 2:
         ctx.anchor_lost(rule, 'ThreadPoolBuilder::build call sites', 'found %d of 2' % n)
@@ -60,6 +64,23 @@ def run(ctx):
                 if strip_refs(ee[2][0]) == e and strip_refs(ee[2][1])[0] == 'agg' and strip_refs(ee[2][1])[1].endswith('SolveError::ThreadOverflow'):
                     uses = [short(x['callee'].get('path') or '') for bk, kind, x in q.local_uses(s, tt['dest']['l']) if kind == 'arg']
                     ok = uses == ['branch']
+        if not ok and cm:
+            # other spellings: ThreadOverflow built on the None edge of the checked_mul result, or ok_or applied to a
+            # value derived from it (e.g. through a small constructor of a thread-info struct)
+            def from_cm(x, depth=0):
+                x = strip_refs(x)
+                if q.find_sub(x, lambda y: q.is_call(y, 'checked_mul')) is not None:
+                    return True
+                if x[0] in ('var',) and depth < 3:
+                    return any(from_cm(v, depth + 1) for _, _, v in q.multi_def_values(s, x[1]))
+                return any(from_cm(y, depth + 1) for y in facts.walk(x) if y is not x and y[0] == 'var') if depth < 3 else False
+            for bj, st, e in q.agg_sites(s, 'error::SolveError', 'ThreadOverflow'):
+                if any(c['kind'] == 'variant' and c['variants'] == ['None'] and from_cm(c['a']) for c in s.conds(bj)):
+                    ok = True
+            for bj, tt, ee in q.calls_named(s, 'ok_or'):
+                if from_cm(ee[2][0]) and strip_refs(ee[2][1])[0] == 'agg' and strip_refs(ee[2][1])[1].endswith('SolveError::ThreadOverflow'):
+                    uses = [short(x['callee'].get('path') or '') for bk, kind, x in q.local_uses(s, tt['dest']['l']) if kind == 'arg']
+                    ok = ok or uses == ['branch'] or any(kind == 'discr' for bk, kind, x in q.local_uses(s, tt['dest']['l']))
         ctx.verdict(ok, rule, rule + ':target-overflow', 'the task target is threads.checked_mul(3), and None is returned as SolveError::ThreadOverflow through `?`', s.where(cm[0][0]) if cm else s.where(0), 'found: %s' % ok,
                     breaks='a huge thread count overflows (panic or wrap) instead of the documented error')
         # one thread: no Err constructible
